@@ -12,9 +12,11 @@
 
    The nine commands implemented by a script.ds (array_is_empty, array_contains, array_concat,
    array_join, map_contains_key, map_contains_value, map_is_empty, set_from_array, set_is_empty)
-   have a definition here only; they are tied to the code by the correspondence run, not by a
-   refinement proof.  [concat_asis] is `array_concat` as the code behaves today (finding F6: the
-   validation loop resumes where an earlier failed call stopped). *)
+   are specified here like the native ones.  Six of them have a hand translation of their script
+   (CollectionsScripts.v) proved against this specification; array_concat, array_join and
+   map_contains_value are tied to the code by the correspondence run only.  [concat_asis] is
+   `array_concat` as the code behaves today (finding F6: the validation loop resumes where an
+   earlier failed call stopped; theorem concat_asis_fresh: no difference otherwise). *)
 From stdpp Require Import gmap list.
 From Coq Require Import NArith ZArith.
 Require Import DS.Collections DS.CollectionsScripts.
